@@ -450,6 +450,8 @@ def run(ctx):
     # ------------------------------------------------------------------
     from .c13 import rule_segment_tag_scan
     rule_segment_tag_scan(ctx, "C20.segment_tag_scan")
+    from .refgraph import rule_group_merge_tags
+    rule_group_merge_tags(ctx, "C20.group_merge_tags")
 
     # ------------------------------------------------------------------
     R = "C20.tag_names_not_class_members"
